@@ -22,7 +22,14 @@ MIN = {'accepted-1.x': 20, 'accepted-0.x': 20, 'rejected-400:after-method': 20, 
        'need-more:mime': 20}
 
 
+# seq.build() only runs "make tests/testHttp1Parser" in src/, which does not rebuild the sub-directory libraries the
+# parser lives in; make them first (innermost first) so that the harness links the code of the *current* tree
+LIBS = ['src/base:libbase.la', 'src/sbuf:libsbuf.la', 'src/parser:libparser.la', 'src/anyp:libanyp.la',
+        'src/http/one:libhttp1.la', 'src/http:libhttp.la']
+
+
 def _build(ctx):
+    ctx.vbuild(*LIBS)
     return seq.build(ctx, 'tests/testHttp1Parser', ['C21_req.cc'])
 
 
